@@ -934,7 +934,7 @@ Section Search.
 
   Definition stb_post (start : range) (s : sst) (m : ms) (res : stb_result) : Prop :=
     exists r s' m', res = Done (r, s', m') /\ sinv s' m' /\ evolves m m' /\ (mu s' m' <= mu s m)%nat /\
-      (r = true -> (mu s' m' < mu s m)%nat \/ start <> sbounds s m) /\
+      (r = true -> (mu s' m' < mu s m)%nat \/ start <> sbounds s m \/ (unp s' = None /\ unt s' = [])) /\
       (r = false -> unp s' = None /\ unt s' = []).
 
   Lemma rv_ltb_irrefl a : rv_ltb a a = false.
@@ -950,12 +950,14 @@ Section Search.
   Proof.
     intros I E Le Pr Hp Hu Hk. unfold stb_finish.
     destruct (rv_ltb (lo start) (lo (sbounds s' m')) || rv_ltb (hi (sbounds s' m')) (hi start)) eqn:C1.
-    - exists true, s', m'. repeat split; auto; try discriminate.
-      intros _. destruct Pr as [Pr|[E1 E2]]; auto. right. intros X. subst.
+    - exists true, s', m'. split; [reflexivity|]. split; [auto|]. split; [auto|]. split; [auto|].
+      split; [|discriminate].
+      intros _. destruct Pr as [Pr|[E1 E2]]; auto. right. left. intros X. subst.
       rewrite !rv_ltb_irrefl in C1. discriminate.
     - destruct (is_none (unp s') && negb tightened) eqn:C2.
       + apply andb_true_iff in C2 as [N T]. apply negb_true_iff in T.
-        exists false, s', m'. repeat split; auto; try discriminate.
+        exists false, s', m'. split; [reflexivity|]. split; [auto|]. split; [auto|]. split; [auto|].
+        split; [discriminate|]. intros _. split; auto.
         destruct (unp s'); [discriminate|reflexivity].
       + assert (Lt : (mu s' m' < mu s0 m0)%nat).
         { apply Hp. apply andb_false_iff in C2 as [C2|C2].
@@ -976,11 +978,11 @@ Section Search.
     (unp (stb_pull s m) <> None -> unp s <> None).
   Proof.
     intros I. unfold stb_pull. destruct (unp s) as [[|x rest]|] eqn:Eu.
-    - split; [apply unp_done_inv; auto|]. repeat split; try discriminate; auto.
+    - split; [apply unp_done_inv; auto|]. split; [discriminate|]. split; [|intros _; discriminate].
       intros _. unfold mu. rewrite Eu. simpl. lia.
-    - split; [apply push_item_inv; auto|]. repeat split; try discriminate; auto.
+    - split; [apply push_item_inv; auto|]. split; [discriminate|]. split; [|intros _; discriminate].
       intros _. unfold mu. rewrite unp_push_item, Eu. simpl. lia.
-    - repeat split; auto.
+    - split; [auto|]. split; [auto|]. split; [congruence|]. rewrite Eu. auto.
   Qed.
 
   Lemma stb_len1_spec s1 m :
@@ -993,10 +995,11 @@ Section Search.
       pose proof (len1_inv s1 m u k t m' I Eu E Tg) as I'.
       destruct (tighten_spec _ _ _ _ Tg) as (Ev & _).
       destruct (t && definitive (bounds m' u)); simpl in *.
-      + repeat split; auto. intros _. unfold hpush. destruct (tig s1) as [|y q]; [discriminate|].
+      + split; [auto|]. split; [auto|]. split; [auto|].
+        intros _. unfold hpush. destruct (tig s1) as [|y q]; [discriminate|]. simpl.
         destruct (range_ltb (bounds m' u) (snd y)); discriminate.
-      + repeat split; auto. rewrite E. discriminate.
-    - simpl. repeat split; auto using evolves_refl. rewrite E. discriminate.
+      + split; [auto|]. split; [auto|]. split; [auto|]. rewrite E. discriminate.
+    - simpl. split; [auto|]. split; [apply evolves_refl|]. split; [auto|]. rewrite E. discriminate.
   Qed.
 
   Lemma mu_none s m : unp s = None -> mu s m = rem m.
@@ -1007,32 +1010,32 @@ Section Search.
     (forall s' m', sinv s' m' -> (mu s' m' < mu s m)%nat -> stb_post start s' m' (k s' m')) ->
     stb_post start s m (stb_body k start s m).
   Proof.
-    intros I Hk. unfold stb_body.
+    intros I Hk. unfold stb_body. cbv zeta.
     destruct (stb_pull_spec s m I) as (I1 & Psame & Plt & Pnn).
     set (s1 := stb_pull s m) in *.
     assert (Le1 : (mu s1 m <= mu s m)%nat).
-    { destruct (unp s) eqn:Eu; [apply Nat.lt_le_incl, Plt; discriminate|]. unfold s1. rewrite Psame; auto. }
+    { destruct (unp s) eqn:Eu; [apply Nat.lt_le_incl, Plt; discriminate|]. rewrite Psame; auto. }
     destruct (unt s1) as [|[u ku] urest] eqn:Eu1.
     - (* nothing left to tighten *)
-      apply stb_finish_spec; auto using evolves_refl.
+      apply stb_finish_spec; [exact I1 | apply evolves_refl | exact Le1 | | | auto | ].
       + destruct (unp s) eqn:Eu; [left; apply Plt; discriminate|right; split; auto].
       + intros [X|X]; [discriminate|]. apply Plt. apply Pnn. exact X.
       + intros Lt. apply Hk; auto.
     - destruct (unp s1) eqn:Ep; cbn [is_none andb].
       + (* still pulling from the input: tighten heap._min *)
-        assert (Lt1 : (mu s1 m < mu s m)%nat) by (apply Plt, Pnn; rewrite Ep; discriminate).
+        assert (Lt1 : (mu s1 m < mu s m)%nat) by (apply Plt, Pnn; discriminate).
         rewrite Eu1. destruct (tighten m u) as [t m3] eqn:Tg.
         destruct I1 as (L1 & M1 & H1).
         assert (Hu : (u < n)%nat).
         { apply L1. unfold live. rewrite Eu1. apply in_or_app. right. simpl. auto. }
         assert (Tt : t = true).
-        { eapply tighten_true; eauto; try apply M1. rewrite (m_n _ M1). auto.
-          apply (h_unt _ _ _ H1 (u, ku)). rewrite Eu1. left; auto. }
+        { apply (tighten_true m u t m3); [apply M1 | rewrite (m_n _ M1); auto | | exact Tg].
+          apply (h_unt _ _ _ H1 (u, ku)). rewrite Eu1. simpl; auto. }
         subst t. destruct (tighten_spec _ _ _ _ Tg) as (Ev & Rm & _).
         destruct (update_bounds_inv s1 m m3 true u ku urest (conj L1 (conj M1 H1)) Eu1 Tg) as (I3 & U3).
         assert (Mu3 : (mu (update_bounds s1 m3 u ku) m3 < mu s1 m)%nat).
         { unfold mu. rewrite U3. lia. }
-        apply stb_finish_spec; auto; try lia; try discriminate.
+        apply stb_finish_spec; [exact I3 | exact Ev | lia | left; lia | intros _; lia | discriminate | ].
         intros Lt. apply Hk; auto.
       + (* input exhausted *)
         destruct (stb_len1_spec s1 m I1 Ep ltac:(rewrite Eu1; discriminate)) as (I2 & E2 & U2 & T2).
@@ -1046,15 +1049,17 @@ Section Search.
           destruct (tighten_spec _ _ _ _ Tg) as (Ev & Rm & _ & Tf).
           pose proof (goal_state_inv s2 m2 b ret m3 (hints s2) I2 Hb Mn Tg) as I3.
           assert (U3 : unp (push_item (mkS None [] [] (hints s2)) m3 b) = None) by apply unp_push_item.
-          exists ret, (push_item (mkS None [] [] (hints s2)) m3 b), m3.
-          split; auto. split; auto. split; [eapply evolves_trans; eauto|].
+          assert (Fs : ret = false -> unt (push_item (mkS None [] [] (hints s2)) m3 b) = []).
+          { intros ->. destruct I2 as (L2 & M2 & H2).
+            destruct (Tf eq_refl) as [Ie Df]. unfold push_item.
+            rewrite (bounds_its m2 m3) by auto. rewrite Df; auto; try apply M2.
+            rewrite (m_n _ M2). apply L2. exact Hb. }
+          cbv zeta. eexists _, (push_item (mkS None [] [] (hints s2)) m3 b), m3.
+          split; [reflexivity|]. split; auto. split; [eapply evolves_trans; eauto|].
           rewrite (mu_none _ m3 U3). rewrite (mu_none s2 m2 U2) in Le2.
           split; [destruct ret; lia|]. split.
-          -- intros ->. left. lia.
-          -- intros ->. split; auto. destruct I2 as (L2 & M2 & H2).
-             destruct (Tf eq_refl) as [Ie Df]. unfold push_item.
-             rewrite (bounds_its m2 m3) by auto. rewrite Df; auto; try apply M2.
-             rewrite (m_n _ M2). apply L2. exact Hb.
+          -- intros Hr. destruct ret; [left; lia|]. right. right. auto.
+          -- intros Hr. destruct ret; [discriminate|]. auto.
         * destruct (unt s2) as [|[i k0] rest] eqn:Eu2.
           -- exfalso. destruct (tig s2) as [|x r] eqn:Et; [now apply T2|].
              rewrite (goal_when_unt_empty s2 m2 x r) in G; auto. discriminate.
@@ -1063,13 +1068,660 @@ Section Search.
              assert (Hi : (i < n)%nat).
              { apply L2. unfold live. rewrite Eu2. apply in_or_app. right. simpl. auto. }
              assert (Tt : t = true).
-             { eapply tighten_true; eauto; try apply M2. rewrite (m_n _ M2). auto.
-               apply (h_unt _ _ _ H2 (i, k0)). left; auto. }
+             { apply (tighten_true m2 i t m3); [apply M2 | rewrite (m_n _ M2); auto | | exact Tg].
+               apply (h_unt _ _ _ H2 (i, k0)). rewrite Eu2. simpl; auto. }
              subst t. destruct (tighten_spec _ _ _ _ Tg) as (Ev & Rm & _).
              destruct (update_bounds_inv s2 m2 m3 true i k0 rest (conj L2 (conj M2 H2)) Eu2 Tg) as (I3 & U3).
              assert (Mu3 : (mu (update_bounds s2 m3 i k0) m3 < mu s2 m2)%nat).
              { unfold mu. rewrite U3. lia. }
-             apply stb_finish_spec; auto; try lia; try discriminate.
-             ++ eapply evolves_trans; eauto.
-             ++ intros Lt. apply Hk; auto.
+             apply stb_finish_spec;
+               [exact I3 | eapply evolves_trans; eauto | lia | left; lia | intros _; lia | discriminate | ].
+             intros Lt. apply Hk; auto.
   Qed.
+
+  Lemma stb_loop_spec fuel : forall start s m,
+    sinv s m -> (mu s m < fuel)%nat -> stb_post start s m (stb_loop fuel start s m).
+  Proof.
+    induction fuel; intros start s m I Lt; [lia|]. simpl. apply stb_body_spec; auto.
+    intros s' m' I' Lt'. apply IHfuel; auto. lia.
+  Qed.
+
+  Lemma stb_final_state fuel s m :
+    unp s = None -> unt s = [] -> stb_loop (S fuel) (sbounds s m) s m = Done (false, s, m).
+  Proof.
+    intros Eu E. simpl. unfold stb_body, stb_pull. rewrite Eu. cbv zeta. rewrite E.
+    unfold stb_finish. rewrite !rv_ltb_irrefl, Eu. reflexivity.
+  Qed.
+
+  Lemma search_loop_spec inner : forall fuel s m rets,
+    sinv s m -> (mu s m + 1 < fuel)%nat -> (mu s m < inner)%nat ->
+    exists s' m' rets', search_loop fuel inner s m rets = Done (s', m', rets') /\ sinv s' m' /\ evolves m m' /\
+                  unp s' = None /\ unt s' = [].
+  Proof.
+    induction fuel; intros s m rets I Lf Li; [lia|]. simpl. unfold search_tighten.
+    destruct (stb_loop_spec inner (sbounds s m) s m I Li) as (r & s1 & m1 & R & I1 & E1 & Le & Pt & Pf).
+    rewrite R. simpl. destruct r.
+    - destruct (Pt eq_refl) as [Lt|[Ne|[U1 U2]]]; [|congruence|].
+      + destruct (IHfuel s1 m1 (rets ++ [true]) I1) as (s' & m' & rets' & R' & I' & E' & U'); try lia.
+        exists s', m', rets'. split; auto. split; auto. split; auto. eapply evolves_trans; eauto.
+      + destruct fuel as [|fuel]; [lia|]. destruct inner as [|inner]; [lia|].
+        simpl. unfold search_tighten. rewrite (stb_final_state inner s1 m1 U1 U2). simpl.
+        exists s1, m1, ((rets ++ [true]) ++ [false]). auto.
+    - exists s1, m1, (rets ++ [false]). destruct (Pf eq_refl). auto.
+  Qed.
+
+  Lemma final_result s m :
+    sinv s m -> unp s = None -> unt s = [] -> (0 < n)%nat ->
+    exists b, best_match s m = Some b /\ (b < n)%nat /\ (forall i, (i < n)%nat -> F b <= F i) /\
+              sbounds s m = point (F b).
+  Proof.
+    intros (L & M & H) Eu E Hn.
+    assert (Lv : live s = ids (tig s)) by (unfold live, unp_ids; rewrite Eu, E; reflexivity).
+    destruct (l_dom _ L 0%nat Hn) as (j0 & Hj0 & _). rewrite Lv in Hj0.
+    destruct (tig s) as [|x r] eqn:Et; [destruct Hj0|].
+    assert (Bm : best_match s m = Some (fst x)).
+    { unfold best_match. rewrite Eu, E, Et. destruct x; reflexivity. }
+    exists (fst x). split; auto. split; [apply L; rewrite Lv; simpl; auto|]. split.
+    - intros i Hi. destruct (l_dom _ L i Hi) as (j & Hj & Le). rewrite Lv in Hj.
+      unfold ids in Hj. apply in_map_iff in Hj as (y & <- & Hy).
+      pose proof (h_tmin _ _ _ H x r y eq_refl Hy) as T. lia.
+    - unfold sbounds. rewrite Bm, E, Et. simpl app.
+      destruct (h_tig _ _ _ H x) as [Kx Bx]; [left; auto|]. rewrite Bx.
+      set (lb0 := fold_left (fun lb (y : nat * range) => rv_min (lo (snd y)) lb) (x :: r) PosInf).
+      assert (A : rle lb0 (Fin (F (fst x)))).
+      { replace (Fin (F (fst x))) with (lo (snd x)) by (rewrite Kx; reflexivity).
+        apply fold_min_le. left; auto. }
+      assert (B : rle (Fin (F (fst x))) lb0).
+      { apply fold_min_glb; [reflexivity|]. intros y Hy.
+        destruct (h_tig _ _ _ H y Hy) as [Ky _].
+        rewrite Ky. simpl. apply rle_fin. apply (h_tmin _ _ _ H x r y eq_refl Hy). }
+      rewrite (rle_antisym _ _ A B). simpl. unfold rv_min. simpl. rewrite Z.ltb_irrefl. reflexivity.
+  Qed.
+End Search.
+
+Theorem C17_search_model items hints fuel :
+  Forall (fun s => wf_sched s = true) items -> items <> [] -> (fuel_for items <= fuel)%nat ->
+  exists b r rets m', search fuel (mkMs items []) (seq 0 (length items)) hints = Done (Some b, r, rets, m') /\
+                 evolves (mkMs items []) m' /\ holds_search items (OSearch (Some b) r rets) = true.
+Proof.
+  intros W Ne Hf.
+  set (F := fin_at items). set (n := length items). set (m0 := mkMs items []).
+  set (s0 := mkS (Some (seq 0 n)) [] [] hints).
+  assert (I0 : sinv F n s0 m0).
+  { split; [|split].
+    - unfold live, unp_ids; simpl. rewrite app_nil_r. constructor.
+      + intros i Hi. apply in_seq in Hi. lia.
+      + apply seq_NoDup.
+      + intros i Hi. exists i. split; [apply in_seq; lia|lia].
+    - constructor; [exact W | reflexivity | intros; reflexivity].
+    - constructor; simpl; try tauto; intros; discriminate. }
+  assert (Mu : (mu s0 m0 + 1 < fuel)%nat).
+  { unfold mu, rem, s0, m0, fuel_for in *. simpl. rewrite seq_length. fold n. lia. }
+  destruct (search_loop_spec F n fuel fuel s0 m0 [] I0 Mu ltac:(lia)) as (s' & m' & rets & R & I' & E' & U1 & U2).
+  assert (Hn : (0 < n)%nat) by (unfold n; destruct items; simpl; [congruence|lia]).
+  destruct (final_result F n s' m' I' U1 U2 Hn) as (b & Bm & Hb & Mn & Sb).
+  unfold search. fold n. fold s0. fold m0. rewrite R. simpl. rewrite Bm, Sb.
+  exists b, (point (F b)), rets, m'. split; auto. split; auto.
+  unfold holds_search. destruct items as [|s items]; [congruence|].
+  apply andb_true_iff. split; [|apply range_eqb_eq; reflexivity].
+  apply is_min_final_intro; auto.
+Qed.
+
+
+(* ------------------------------------------------------------------ make_distinct *)
+
+(* -- ranges *)
+
+Lemma md_finite_fin r : finite r = true -> exists a b, r = mkR (Fin a) (Fin b).
+Proof. destruct r as [[| a |] [| b |]]; unfold finite; simpl; try discriminate. eauto. Qed.
+
+Lemma md_finite_contains a b :
+  contains a b = true -> range_ok b = true -> finite a = true -> finite b = true.
+Proof. intros C O F. apply md_finite_fin in F as (x & y & ->). destruct b as [l h]. rv_solve. Qed.
+
+Lemma md_finite_evolves m m' i :
+  wf_ms m -> (i < nitems m)%nat -> evolves m m' -> finite (bounds m i) = true -> finite (bounds m' i) = true.
+Proof.
+  intros Hw Hi E F. eapply md_finite_contains; [apply (ev_shrink _ _ E Hw i) | | exact F].
+  apply bounds_ok; [apply E; auto | rewrite (ev_len _ _ E); auto].
+Qed.
+
+Definition md_sz (r : range) : Z := rv_z (hi r) + 1 - rv_z (lo r).
+Definition md_ov (r1 r2 : range) : bool :=
+  (rv_z (lo r2) <? rv_z (hi r1) + 1) && (rv_z (lo r1) <? rv_z (hi r2) + 1).
+
+Lemma md_sz_pos r : finite r = true -> range_ok r = true -> 0 < md_sz r.
+Proof. intros F O. apply md_finite_fin in F as (x & y & ->). unfold md_sz. rv_solve. Qed.
+Lemma md_sz_def r : definitive r = true -> md_sz r = 1.
+Proof. intros D. apply definitive_iff in D as [z ->]. unfold md_sz, point; simpl. lia. Qed.
+Lemma md_sz_le1 r : finite r = true -> range_ok r = true -> md_sz r <= 1 -> definitive r = true.
+Proof. intros F O. apply md_finite_fin in F as (x & y & ->). unfold md_sz. rv_solve. Qed.
+Lemma md_def_sep a b : definitive a = true -> definitive b = true -> separated a b = true.
+Proof. intros A B. unfold separated. rewrite A, B. apply orb_true_r. Qed.
+Lemma md_ov_false a b : finite a = true -> finite b = true -> md_ov a b = false -> separated a b = true.
+Proof.
+  intros A B. apply md_finite_fin in A as (x & y & ->). apply md_finite_fin in B as (u & v & ->).
+  unfold md_ov, separated; simpl. bools. intros [H|H]; [left; left | left; right]; lia.
+Qed.
+Lemma md_ov_true a b :
+  finite a = true -> finite b = true -> md_ov a b = true -> definitive a = false -> separated a b = false.
+Proof.
+  intros A B. apply md_finite_fin in A as (x & y & ->). apply md_finite_fin in B as (u & v & ->).
+  unfold md_ov, separated; simpl. intros H D. rewrite D. simpl. bools. lia.
+Qed.
+
+Lemma md_exit_sep a b :
+  (definitive a && definitive b) || rv_ltb (hi a) (lo b) || rv_ltb (hi b) (lo a) = separated a b.
+Proof.
+  unfold separated.
+  destruct (definitive a && definitive b), (rv_ltb (hi a) (lo b)), (rv_ltb (hi b) (lo a)); reflexivity.
+Qed.
+
+(* -- the pairwise tightening loop *)
+
+Lemma md_pair_loop_spec fuel : forall m a b,
+  wf_ms m -> (a < nitems m)%nat -> (b < nitems m)%nat -> (rem m < fuel)%nat ->
+  exists m', pair_loop fuel m a b = Done m' /\ evolves m m' /\
+    (forall j, j <> a -> j <> b -> sched_of m' j = sched_of m j) /\
+    separated (bounds m' a) (bounds m' b) = true /\
+    (separated (bounds m a) (bounds m b) = false -> (rem m' < rem m)%nat).
+Proof.
+  induction fuel; intros m a b Hw Ha Hb Hf; [lia|].
+  simpl. rewrite md_exit_sep. destruct (separated (bounds m a) (bounds m b)) eqn:S.
+  - exists m. split; [reflexivity|]. split; [apply evolves_refl|]. split; [auto|]. split; [exact S|discriminate].
+  - destruct (tighten m a) as [ta m1] eqn:Ta. destruct (tighten_spec _ _ _ _ Ta) as (E1 & R1 & O1 & F1).
+    destruct (tighten m1 b) as [tb m2] eqn:Tb. destruct (tighten_spec _ _ _ _ Tb) as (E2 & R2 & O2 & F2).
+    assert (W1 : wf_ms m1) by (apply E1; auto).
+    assert (L1 : nitems m1 = nitems m) by apply E1.
+    assert (W2 : wf_ms m2) by (apply E2; auto).
+    assert (L2 : nitems m2 = nitems m) by (rewrite (ev_len _ _ E2); auto).
+    assert (D : (rem m2 < rem m)%nat).
+    { destruct ta; [lia|]. destruct tb; [lia|]. exfalso.
+      destruct (F1 eq_refl) as [I1 D1]. destruct (F2 eq_refl) as [I2 D2].
+      specialize (D1 Hw Ha). rewrite L1 in D2. specialize (D2 W1 Hb). rewrite (bounds_its m m1) in D2 by auto.
+      unfold separated in S. rewrite D1, D2 in S. rewrite orb_true_r in S. discriminate. }
+    destruct (IHfuel m2 a b) as (m' & P & E & O & Sp & _); auto; try lia.
+    exists m'. split; [exact P|]. split; [eapply evolves_trans; [|exact E]; eapply evolves_trans; eauto|].
+    split; [|split; [exact Sp|]].
+    + intros j Na Nb. rewrite O, O2, O1; auto.
+    + intros _. pose proof (ev_rem _ _ E). lia.
+Qed.
+
+(* -- building the interval tree *)
+
+Lemma md_admissible_step m i :
+  (i < nitems m)%nat -> md_admissible_sched (sched_of m i) = true -> finite (bounds m i) = false ->
+  forall t m1, tighten m i = (t, m1) -> finite (bounds m1 i) = true.
+Proof.
+  intros Hi A F t m1 T. unfold tighten in T. unfold bounds in F.
+  destruct (sched_of m i) as [|r [|r2 rest]] eqn:E; simpl in A, F.
+  - discriminate.
+  - rewrite F in A. discriminate.
+  - rewrite F in A. simpl in A. inversion T; subst. unfold bounds, sched_of. simpl.
+    rewrite nth_upd_eq by exact Hi. exact A.
+Qed.
+
+Lemma md_iv_of_same m m' k : sched_of m' k = sched_of m k -> iv_of m' k = iv_of m k.
+Proof. intros H. unfold iv_of, bounds. now rewrite H. Qed.
+Lemma md_bounds_same m m' k : sched_of m' k = sched_of m k -> bounds m' k = bounds m k.
+Proof. intros H. unfold bounds. now rewrite H. Qed.
+
+Lemma md_init_spec : forall idl m tree,
+  wf_ms m -> NoDup idl ->
+  (forall i, In i idl -> (i < nitems m)%nat /\ md_admissible_sched (sched_of m i) = true) ->
+  exists m1 tr, md_init m idl tree = Done (m1, tree ++ tr) /\ evolves m m1 /\
+    map iv_id tr = idl /\ (forall x, In x tr -> x = iv_of m1 (iv_id x)) /\
+    (forall i, In i idl -> finite (bounds m1 i) = true) /\
+    (forall j, ~ In j idl -> sched_of m1 j = sched_of m j).
+Proof.
+  induction idl as [|i rest IH]; intros m tree Hw Nd Hi.
+  - exists m, []. simpl. rewrite app_nil_r. split; [reflexivity|]. split; [apply evolves_refl|].
+    split; [reflexivity|]. split; [intros x []|]. split; [intros x []|auto].
+  - inversion Nd as [|? ? Ni Nd']; subst.
+    destruct (Hi i (or_introl eq_refl)) as [Li Ai].
+    assert (S0 : exists m0, md_init m (i :: rest) tree = md_init m0 rest (tree ++ [iv_of m0 i]) /\
+                   evolves m m0 /\ finite (bounds m0 i) = true /\
+                   forall j, j <> i -> sched_of m0 j = sched_of m j).
+    { simpl. destruct (finite (bounds m i)) eqn:F.
+      - exists m. split; [reflexivity|]. split; [apply evolves_refl|]. split; auto.
+      - destruct (tighten m i) as [t m1] eqn:T.
+        pose proof (md_admissible_step m i Li Ai F t m1 T) as F1. rewrite F1.
+        destruct (tighten_spec _ _ _ _ T) as (E1 & _ & O1 & _).
+        exists m1. split; [reflexivity|]. split; [exact E1|]. split; auto. }
+    destruct S0 as (m0 & R0 & E0 & F0 & O0).
+    destruct (IH m0 (tree ++ [iv_of m0 i])) as (m1 & tr & R1 & E1 & Mp & Cu & Fi & O1).
+    + apply E0; auto.
+    + exact Nd'.
+    + intros j Hj. destruct (Hi j (or_intror Hj)) as [Lj Aj].
+      assert (j <> i) by (intros ->; contradiction).
+      rewrite (ev_len _ _ E0), O0 by auto. auto.
+    + assert (Si : sched_of m1 i = sched_of m0 i) by (apply O1; exact Ni).
+      exists m1, (iv_of m0 i :: tr). rewrite R0, R1, <- app_assoc. simpl.
+      split; [reflexivity|]. split; [eapply evolves_trans; eauto|].
+      split; [f_equal; exact Mp|].
+      split; [|split].
+      * intros x [<-|Hx]; [|auto]. symmetry. apply md_iv_of_same. exact Si.
+      * intros j [<-|Hj]; [|auto]. rewrite (md_bounds_same m0 m1) by exact Si. exact F0.
+      * intros j Hj. rewrite O1 by tauto. apply O0. intros ->. tauto.
+Qed.
+
+(* -- the interval tree as a list *)
+
+Lemma md_remove_In i x t : In x (tree_remove i t) <-> In x t /\ iv_id x <> i.
+Proof.
+  unfold tree_remove. rewrite filter_In, negb_true_iff, Nat.eqb_neq. tauto.
+Qed.
+Lemma md_in_remove i k t : In k (map iv_id (tree_remove i t)) <-> In k (map iv_id t) /\ k <> i.
+Proof.
+  rewrite !in_map_iff. split.
+  - intros (x & <- & H). apply md_remove_In in H as [H N]. split; eauto.
+  - intros [(x & <- & H) N]. exists x; split; auto. apply md_remove_In. auto.
+Qed.
+Lemma md_NoDup_filter {A B} (f : A -> B) p l : NoDup (map f l) -> NoDup (map f (filter p l)).
+Proof.
+  induction l as [|a l IH]; simpl; intros H; [constructor|]. inversion H as [|? ? Na Nl]; subst.
+  destruct (p a); simpl; auto. constructor; auto.
+  intros Q. apply Na. apply in_map_iff in Q as (x & E & Hx). apply filter_In in Hx as [Hx _].
+  apply in_map_iff. eauto.
+Qed.
+Lemma md_filter_length_le {A} p (l : list A) : (length (filter p l) <= length l)%nat.
+Proof. induction l as [|a l IH]; simpl; auto. destruct (p a); simpl; lia. Qed.
+Lemma md_filter_length_lt {A} p (x : A) l : In x l -> p x = false -> (length (filter p l) < length l)%nat.
+Proof.
+  induction l as [|a l IH]; simpl; [tauto|]. intros [->|H] Px.
+  - rewrite Px. pose proof (md_filter_length_le p l). lia.
+  - specialize (IH H Px). destruct (p a); simpl; lia.
+Qed.
+Lemma md_remove_length_lt x t : In x t -> (length (tree_remove (iv_id x) t) < length t)%nat.
+Proof.
+  intros H. unfold tree_remove. apply md_filter_length_lt with (x := x); auto.
+  rewrite Nat.eqb_refl. reflexivity.
+Qed.
+Lemma md_filter_nil {A} p (l : list A) : filter p l = [] -> forall x, In x l -> p x = false.
+Proof.
+  intros E x Hx. destruct (p x) eqn:P; auto.
+  assert (In x (filter p l)) by (apply filter_In; auto). rewrite E in H. destruct H.
+Qed.
+Lemma md_two_in (i j : nat) l : In i l -> In j l -> i <> j -> (2 <= length l)%nat.
+Proof.
+  destruct l as [|a [|b l]]; simpl; [tauto | | lia].
+  intros [->|[]] [->|[]] N. congruence.
+Qed.
+
+(* -- choosing a biggest interval *)
+
+Lemma md_max_size_ge t x : In x t -> iv_size x <= max_size t.
+Proof. induction t as [|a t IH]; simpl; [tauto|]. intros [->|H]; [lia|]. specialize (IH H). lia. Qed.
+Lemma md_max_attained t :
+  t <> [] -> (forall y, In y t -> 0 < iv_size y) -> exists x, In x t /\ iv_size x = max_size t.
+Proof.
+  induction t as [|a t IH]; [congruence|]. intros _ P. destruct t as [|b t].
+  - exists a. split; [left; auto|]. simpl. specialize (P a (or_introl eq_refl)). lia.
+  - destruct IH as (x & Hx & Ex); [discriminate | intros y Hy; apply P; right; exact Hy |].
+    change (max_size (a :: b :: t)) with (Z.max (iv_size a) (max_size (b :: t))).
+    destruct (Z.max_spec (iv_size a) (max_size (b :: t))) as [[_ ->]|[_ ->]].
+    + exists x. split; [right; exact Hx | exact Ex].
+    + exists a. split; [left; auto | reflexivity].
+Qed.
+Lemma md_choose_big_some t h x : choose_big t h = Some x -> In x t /\ iv_size x = max_size t.
+Proof.
+  unfold choose_big. intros H.
+  assert (D : find (fun x => iv_size x =? max_size t) t = Some x -> In x t /\ iv_size x = max_size t).
+  { intros F. apply find_some in F as [F1 F2]. apply Z.eqb_eq in F2. auto. }
+  destruct h as [h|]; auto.
+  destruct (find (fun x => Nat.eqb (iv_id x) h && (iv_size x =? max_size t)) t) eqn:F; auto.
+  inversion H; subst. apply find_some in F as [F1 F2]. apply andb_true_iff in F2 as [_ F2].
+  apply Z.eqb_eq in F2. auto.
+Qed.
+Lemma md_choose_big_none t h : (forall y, In y t -> 0 < iv_size y) -> choose_big t h = None -> t = [].
+Proof.
+  intros P H. destruct t as [|a t]; auto. exfalso.
+  destruct (md_max_attained (a :: t)) as (x & Hx & Ex); [discriminate | exact P |].
+  assert (F : find (fun x => iv_size x =? max_size (a :: t)) (a :: t) = None).
+  { unfold choose_big in H. destruct h as [h|]; auto.
+    destruct (find (fun x => Nat.eqb (iv_id x) h && (iv_size x =? max_size (a :: t))) (a :: t)); auto.
+    discriminate. }
+  pose proof (find_none _ _ F x Hx) as Q. simpl in Q. apply Z.eqb_neq in Q. auto.
+Qed.
+
+(* -- intervals of items *)
+
+Lemma md_size_of m x : x = iv_of m (iv_id x) -> iv_size x = md_sz (bounds m (iv_id x)).
+Proof.
+  destruct x as [[i b] e]. unfold iv_of, iv_id, iv_size, iv_b, iv_e, md_sz. simpl.
+  intros H. injection H as Hb He. lia.
+Qed.
+Lemma md_ov_of m x y :
+  x = iv_of m (iv_id x) -> y = iv_of m (iv_id y) ->
+  iv_overlap (iv_b x) (iv_e x) y = md_ov (bounds m (iv_id x)) (bounds m (iv_id y)).
+Proof.
+  destruct x as [[i b] e], y as [[j c] f]. unfold iv_of, iv_id, iv_overlap, iv_b, iv_e, md_ov. simpl.
+  intros H1 H2. injection H1 as Hb He. injection H2 as Hc Hf. rewrite <- Hb, <- He, <- Hc, <- Hf. reflexivity.
+Qed.
+
+(* the elements of the tree are the current intervals of distinct items *)
+Definition md_tree_ok (m : ms) (t : list ivl) : Prop :=
+  NoDup (map iv_id t) /\ forall x, In x t -> x = iv_of m (iv_id x) /\ (iv_id x < nitems m)%nat.
+
+Lemma md_tree_in m t k : md_tree_ok m t -> In k (map iv_id t) -> In (iv_of m k) t /\ (k < nitems m)%nat.
+Proof.
+  intros [_ C] H. apply in_map_iff in H as (x & <- & Hx). destruct (C x Hx) as [E L].
+  split; [rewrite <- E; exact Hx | exact L].
+Qed.
+
+Lemma md_readd_incl m k t j : In j (map iv_id t) -> In j (map iv_id (readd m k t)).
+Proof.
+  unfold readd. destruct (existsb _ t); auto. rewrite map_app. intros H. apply in_or_app. auto.
+Qed.
+Lemma md_readd_ids m k t j : In j (map iv_id (readd m k t)) -> j = k \/ In j (map iv_id t).
+Proof.
+  unfold readd. destruct (existsb _ t); auto. rewrite map_app. intros H. apply in_app_or in H as [H|H]; auto.
+  simpl in H. destruct H as [H|[]]. left. rewrite <- H. reflexivity.
+Qed.
+Lemma md_readd_length m k t : (length (readd m k t) <= S (length t))%nat.
+Proof. unfold readd. destruct (existsb _ t); [rewrite app_length; simpl; lia | lia]. Qed.
+Lemma md_NoDup_snoc {A} (k : A) l : NoDup l -> ~ In k l -> NoDup (l ++ [k]).
+Proof.
+  intros N H. eapply Permutation_NoDup; [apply Permutation_cons_append|]. constructor; auto.
+Qed.
+Lemma md_readd_ok m k t :
+  md_tree_ok m t -> (k < nitems m)%nat -> ~ In k (map iv_id t) -> md_tree_ok m (readd m k t).
+Proof.
+  intros [Nd C] Lk Nk. unfold readd. destruct (existsb _ t); [|split; auto]. split.
+  - rewrite map_app. simpl. apply md_NoDup_snoc; auto.
+  - intros x H. apply in_app_or in H as [H|[<-|[]]]; auto.
+Qed.
+Lemma md_readd_sep m k t j :
+  (forall i, (i < nitems m)%nat -> finite (bounds m i) = true) ->
+  md_tree_ok m t -> (k < nitems m)%nat -> In j (map iv_id t) ->
+  In k (map iv_id (readd m k t)) \/ separated (bounds m k) (bounds m j) = true.
+Proof.
+  intros Fi Ok Lk Hj. destruct (md_tree_in m t j Ok Hj) as [Xj Lj].
+  unfold readd. destruct (existsb _ t) eqn:Ex.
+  - left. rewrite map_app. apply in_or_app. right. left. reflexivity.
+  - right. apply md_ov_false; auto.
+    change (md_ov (bounds m k) (bounds m j))
+      with (iv_overlap (iv_b (iv_of m k)) (iv_e (iv_of m k)) (iv_of m j)).
+    destruct (iv_overlap (iv_b (iv_of m k)) (iv_e (iv_of m k)) (iv_of m j)) eqn:O; auto.
+    assert (existsb (iv_overlap (iv_b (iv_of m k)) (iv_e (iv_of m k))) t = true)
+      by (apply existsb_exists; eauto).
+    congruence.
+Qed.
+
+(* -- the invariant of the main loop: every item is finite, the tree holds the current intervals of distinct
+      items, and two items that are not both in the tree are separated *)
+Record md_inv (m : ms) (T : list ivl) : Prop := {
+  md_i_wf : wf_ms m;
+  md_i_fin : forall i, (i < nitems m)%nat -> finite (bounds m i) = true;
+  md_i_ok : md_tree_ok m T;
+  md_i_sep : forall i j, (i < nitems m)%nat -> (j < nitems m)%nat -> i <> j ->
+             (In i (map iv_id T) /\ In j (map iv_id T)) \/ separated (bounds m i) (bounds m j) = true
+}.
+
+Lemma md_inv_pos m T x : md_inv m T -> In x T -> 0 < iv_size x.
+Proof.
+  intros I H. destruct (md_i_ok _ _ I) as [_ C]. destruct (C x H) as [E L].
+  rewrite (md_size_of m x E). apply md_sz_pos; [apply I; auto | apply bounds_ok; [apply I|auto]].
+Qed.
+
+Lemma md_exit_small m T : md_inv m T -> (length T <= 1)%nat ->
+  forall i j, (i < nitems m)%nat -> (j < nitems m)%nat -> i <> j ->
+    separated (bounds m i) (bounds m j) = true.
+Proof.
+  intros I L i j Hi Hj N. destruct (md_i_sep _ _ I i j Hi Hj N) as [[A B]|S]; auto.
+  pose proof (md_two_in i j _ A B N) as Q. rewrite map_length in Q. lia.
+Qed.
+
+Lemma md_exit_def m T big :
+  md_inv m T -> In big T -> iv_size big = max_size T -> definitive (bounds m (iv_id big)) = true ->
+  forall i j, (i < nitems m)%nat -> (j < nitems m)%nat -> i <> j ->
+    separated (bounds m i) (bounds m j) = true.
+Proof.
+  intros I Bin Bmax D i j Hi Hj N. destruct (md_i_sep _ _ I i j Hi Hj N) as [[A B]|S]; auto.
+  destruct (md_i_ok _ _ I) as [_ C]. destruct (C big Bin) as [Eb _].
+  assert (M1 : max_size T = 1).
+  { rewrite <- Bmax, (md_size_of m big Eb). apply md_sz_def. exact D. }
+  assert (K : forall k, In k (map iv_id T) -> definitive (bounds m k) = true).
+  { intros k Hk. destruct (md_tree_in m T k (md_i_ok _ _ I) Hk) as [Xk Lk].
+    apply md_sz_le1; [apply I; auto | apply bounds_ok; [apply I | auto] |].
+    pose proof (md_max_size_ge T _ Xk) as G.
+    change (iv_size (iv_of m k)) with (md_sz (bounds m k)) in G. lia. }
+  apply md_def_sep; auto.
+Qed.
+
+(* the biggest interval overlaps nothing: it leaves the tree *)
+Lemma md_step_drop m T big :
+  md_inv m T -> In big T ->
+  (forall x, In x (tree_remove (iv_id big) T) -> iv_overlap (iv_b big) (iv_e big) x = false) ->
+  md_inv m (tree_remove (iv_id big) T).
+Proof.
+  intros I Bin NO. destruct (md_i_ok _ _ I) as [Nd C]. destruct (C big Bin) as [Eb Lb].
+  assert (Ok1 : md_tree_ok m (tree_remove (iv_id big) T)).
+  { split; [unfold tree_remove; apply md_NoDup_filter; auto|].
+    intros x Hx. apply md_remove_In in Hx as [Hx _]. auto. }
+  assert (Sb : forall j, In j (map iv_id T) -> j <> iv_id big ->
+                         separated (bounds m (iv_id big)) (bounds m j) = true).
+  { intros j Hj Nj.
+    assert (Hj1 : In j (map iv_id (tree_remove (iv_id big) T))) by (apply md_in_remove; auto).
+    destruct (md_tree_in m _ j Ok1 Hj1) as [Xj Lj].
+    apply md_ov_false; try (apply I; auto).
+    specialize (NO _ Xj). rewrite (md_ov_of m big (iv_of m j) Eb eq_refl) in NO. exact NO. }
+  constructor; try apply I; auto.
+  intros i j Hi Hj N. destruct (md_i_sep _ _ I i j Hi Hj N) as [[A B]|S]; auto.
+  destruct (Nat.eq_dec i (iv_id big)) as [->|Ni].
+  - right. apply Sb; auto.
+  - destruct (Nat.eq_dec j (iv_id big)) as [->|Nj].
+    + right. rewrite separated_sym. apply Sb; auto.
+    + left. split; apply md_in_remove; auto.
+Qed.
+
+(* two items leave the tree, are tightened until separated, and come back if they overlap something *)
+Lemma md_step_pair m m' T a b :
+  md_inv m T -> In a (map iv_id T) -> In b (map iv_id T) -> a <> b -> evolves m m' ->
+  (forall j, j <> a -> j <> b -> sched_of m' j = sched_of m j) ->
+  separated (bounds m' a) (bounds m' b) = true ->
+  md_inv m' (readd m' b (readd m' a (tree_remove b (tree_remove a T)))).
+Proof.
+  intros I Ha Hb Nab E O Sab.
+  pose proof (md_i_wf _ _ I) as W. assert (W' : wf_ms m') by (apply E; auto).
+  pose proof (ev_len _ _ E) as Ln.
+  destruct (md_i_ok _ _ I) as [Nd C].
+  destruct (md_tree_in m T a (md_i_ok _ _ I) Ha) as [_ La].
+  destruct (md_tree_in m T b (md_i_ok _ _ I) Hb) as [_ Lb].
+  assert (Fi' : forall i, (i < nitems m')%nat -> finite (bounds m' i) = true).
+  { intros i Hi. rewrite Ln in Hi. apply (md_finite_evolves m m' i W Hi E). apply (md_i_fin _ _ I); auto. }
+  set (t2 := tree_remove b (tree_remove a T)).
+  assert (In2 : forall k, In k (map iv_id t2) <-> In k (map iv_id T) /\ k <> a /\ k <> b).
+  { intros k. unfold t2. rewrite !md_in_remove. tauto. }
+  assert (Ok2 : md_tree_ok m' t2).
+  { split.
+    - unfold t2, tree_remove. apply md_NoDup_filter, md_NoDup_filter. exact Nd.
+    - intros x Hx. unfold t2 in Hx. apply md_remove_In in Hx as [Hx Nb]. apply md_remove_In in Hx as [Hx Na].
+      destruct (C x Hx) as [Ex Lx]. split; [|rewrite Ln; exact Lx].
+      rewrite (md_iv_of_same m m') by (apply O; auto). exact Ex. }
+  set (ta := readd m' a t2).
+  assert (Oka : md_tree_ok m' ta).
+  { apply md_readd_ok; auto; [lia|]. rewrite In2. tauto. }
+  assert (Okb : md_tree_ok m' (readd m' b ta)).
+  { apply md_readd_ok; auto; [lia|]. intros Q. apply md_readd_ids in Q as [Q|Q]; [congruence|].
+    apply In2 in Q. tauto. }
+  assert (Pa : forall j, In j (map iv_id T) -> j <> a -> j <> b ->
+            (In a (map iv_id (readd m' b ta)) /\ In j (map iv_id (readd m' b ta))) \/
+            separated (bounds m' a) (bounds m' j) = true).
+  { intros j Hj Na Nb. assert (J2 : In j (map iv_id t2)) by (apply In2; auto).
+    destruct (md_readd_sep m' a t2 j Fi' Ok2) as [Q|Q]; auto; [lia|].
+    left. split; apply md_readd_incl; auto. apply md_readd_incl; auto. }
+  assert (Pb : forall j, In j (map iv_id T) -> j <> a -> j <> b ->
+            (In b (map iv_id (readd m' b ta)) /\ In j (map iv_id (readd m' b ta))) \/
+            separated (bounds m' b) (bounds m' j) = true).
+  { intros j Hj Na Nb. assert (J2 : In j (map iv_id ta)) by (apply md_readd_incl, In2; auto).
+    destruct (md_readd_sep m' b ta j Fi' Oka) as [Q|Q]; auto; [lia|].
+    left. split; auto. apply md_readd_incl; auto. }
+  constructor; auto.
+  intros i j Hi Hj N. rewrite Ln in Hi, Hj.
+  destruct (md_i_sep _ _ I i j Hi Hj N) as [[A B]|S].
+  2: { right. eapply separated_shrink; [exact S | apply E; auto | apply E; auto | |];
+       apply bounds_ok; auto; lia. }
+  destruct (Nat.eq_dec i a) as [->|Nia];
+    [destruct (Nat.eq_dec j b) as [->|Njb]; [right; exact Sab | apply Pa; auto]|].
+  destruct (Nat.eq_dec i b) as [->|Nib];
+    [destruct (Nat.eq_dec j a) as [->|Nja]; [right; rewrite separated_sym; exact Sab | apply Pb; auto]|].
+  destruct (Nat.eq_dec j a) as [->|Nja].
+  { destruct (Pa i A Nia Nib) as [[P Q]|P]; [left; auto | right; rewrite separated_sym; exact P]. }
+  destruct (Nat.eq_dec j b) as [->|Njb].
+  { destruct (Pb i A Nia Nib) as [[P Q]|P]; [left; auto | right; rewrite separated_sym; exact P]. }
+  left. split; apply md_readd_incl, md_readd_incl, In2; auto.
+Qed.
+
+Lemma md_loop_spec fuel : forall m T hints,
+  md_inv m T -> (rem m + length T < fuel)%nat ->
+  exists m', md_loop fuel m T hints = Done m' /\ evolves m m' /\
+    forall i j, (i < nitems m)%nat -> (j < nitems m)%nat -> i <> j ->
+      separated (bounds m' i) (bounds m' j) = true.
+Proof.
+  induction fuel; intros m T hints I Hf; [lia|].
+  cbn [md_loop].
+  destruct (length T <=? 1)%nat eqn:L.
+  { apply Nat.leb_le in L. exists m. split; [reflexivity|]. split; [apply evolves_refl|].
+    apply (md_exit_small m T I L). }
+  apply Nat.leb_gt in L.
+  destruct (choose_big T (hd_error hints)) as [big|] eqn:CB.
+  2: { exfalso. apply md_choose_big_none in CB; [subst; simpl in L; lia|].
+       intros y Hy. apply (md_inv_pos m T y I Hy). }
+  destruct (md_choose_big_some _ _ _ CB) as [Bin Bmax].
+  destruct (definitive (bounds m (iv_id big))) eqn:Dbig.
+  { exists m. split; [reflexivity|]. split; [apply evolves_refl|].
+    apply (md_exit_def m T big I Bin Bmax Dbig). }
+  pose proof (md_remove_length_lt big T Bin) as Len1.
+  destruct (md_i_ok _ _ I) as [Nd C]. destruct (C big Bin) as [Eb Lb].
+  destruct (choose_big (filter (iv_overlap (iv_b big) (iv_e big)) (tree_remove (iv_id big) T))
+                       (hd_error (tl hints))) as [sec|] eqn:CS.
+  - destruct (md_choose_big_some _ _ _ CS) as [Sin _].
+    apply filter_In in Sin as [Sin1 Ov]. pose proof Sin1 as Sin2.
+    apply md_remove_In in Sin2 as [SinT Nab].
+    destruct (C sec SinT) as [Es Ls].
+    pose proof (md_remove_length_lt sec _ Sin1) as Len2.
+    rewrite (md_ov_of m big sec Eb Es) in Ov.
+    assert (NS : separated (bounds m (iv_id big)) (bounds m (iv_id sec)) = false).
+    { apply md_ov_true; auto; apply (md_i_fin _ _ I); auto. }
+    destruct (md_pair_loop_spec (S fuel) m (iv_id big) (iv_id sec) (md_i_wf _ _ I) Lb Ls)
+      as (m1 & P & E & O & Sp & Dec); [lia|].
+    rewrite P. cbn [obind]. specialize (Dec NS).
+    assert (I1 := md_step_pair m m1 T (iv_id big) (iv_id sec) I (in_map iv_id _ _ Bin) (in_map iv_id _ _ SinT)
+                    (fun H => Nab (eq_sym H)) E O Sp).
+    destruct (IHfuel m1 _ (tl (tl hints)) I1) as (m' & R & E' & Sep).
+    + pose proof (md_readd_length m1 (iv_id sec)
+                    (readd m1 (iv_id big) (tree_remove (iv_id sec) (tree_remove (iv_id big) T)))).
+      pose proof (md_readd_length m1 (iv_id big) (tree_remove (iv_id sec) (tree_remove (iv_id big) T))).
+      lia.
+    + exists m'. split; [exact R|]. split; [eapply evolves_trans; eauto|].
+      intros i j Hi Hj N. apply Sep; auto; rewrite (ev_len _ _ E); auto.
+  - assert (Mt : filter (iv_overlap (iv_b big) (iv_e big)) (tree_remove (iv_id big) T) = []).
+    { apply md_choose_big_none in CS; auto. intros y Hy. apply filter_In in Hy as [Hy _].
+      apply md_remove_In in Hy as [Hy _]. apply (md_inv_pos m T y I Hy). }
+    assert (I1 := md_step_drop m T big I Bin (md_filter_nil _ _ Mt)).
+    destruct (IHfuel m _ (tl hints) I1) as (m' & R & E' & Sep); [lia|].
+    exists m'. auto.
+Qed.
+
+(* -- the result *)
+
+Lemma md_pairwise l d :
+  (forall i j, (i < j < length l)%nat -> separated (nth i l d) (nth j l d) = true) ->
+  pairwise_separated l = true.
+Proof.
+  induction l as [|a l IH]; intros H; [reflexivity|]. simpl. apply andb_true_iff. split.
+  - apply forallb_forall. intros y Hy. destruct (In_nth _ _ d Hy) as (k & Hk & <-).
+    apply (H 0%nat (S k)). simpl. lia.
+  - apply IH. intros i j Hij. apply (H (S i) (S j)). simpl. lia.
+Qed.
+
+Theorem C17_distinct_model items hints fuel :
+  Forall (fun s => wf_sched s = true) items ->
+  forallb md_admissible_sched items = true ->
+  (fuel_for items <= fuel)%nat ->
+  exists m', make_distinct fuel (mkMs items []) (seq 0 (length items)) hints = Done m' /\
+             evolves (mkMs items []) m' /\
+             holds_distinct items (ORanges (map cur (its m'))) = true.
+Proof.
+  intros W A Hf. set (m := mkMs items []).
+  assert (Ln : nitems m = length items) by reflexivity.
+  destruct (md_init_spec (seq 0 (length items)) m [] W (seq_NoDup _ _)) as (m1 & tr & R1 & E1 & Mp & Cu & Fi & _).
+  { intros i Hi. apply in_seq in Hi. split; [rewrite Ln; lia|].
+    rewrite forallb_forall in A. apply A. apply nth_In. lia. }
+  simpl app in R1. pose proof (ev_len _ _ E1) as L1.
+  assert (I1 : md_inv m1 tr).
+  { constructor.
+    - apply E1; exact W.
+    - intros i Hi. apply Fi. apply in_seq. lia.
+    - split; [rewrite Mp; apply seq_NoDup|]. intros x Hx. split; [auto|].
+      assert (Q : In (iv_id x) (seq 0 (length items))) by (rewrite <- Mp; apply in_map; exact Hx).
+      apply in_seq in Q. lia.
+    - intros i j Hi Hj N. left. rewrite Mp. split; apply in_seq; lia. }
+  destruct (md_loop_spec fuel m1 tr hints I1) as (m' & R & E' & Sep).
+  { assert (length tr = length items) by (rewrite <- (map_length iv_id), Mp; apply seq_length).
+    pose proof (ev_rem _ _ E1). unfold fuel_for in Hf. unfold rem at 2 in H0. simpl in H0. lia. }
+  exists m'. unfold make_distinct. rewrite R1. cbn [obind]. split; [exact R|].
+  assert (E : evolves m m') by (eapply evolves_trans; eauto). split; [exact E|].
+  unfold holds_distinct. rewrite A. apply andb_true_iff.
+  pose proof (ev_len _ _ E) as L'. unfold nitems in L'. simpl in L'. split.
+  - apply Nat.eqb_eq. rewrite map_length. exact L'.
+  - apply md_pairwise with (d := full_range). rewrite map_length. intros i j Hij.
+    change full_range with (cur []). rewrite !map_nth. apply (Sep i j); lia.
+Qed.
+
+(* the hypotheses are satisfiable by a non-trivial collection: three sound, admissible items whose first ranges
+   overlap pairwise and are not definitive; the model tightens them (4 tighten_bounds() calls) down to 2, 3, 1 *)
+Example C17_distinct_example :
+  let items := [ [mkR (Fin 0) (Fin 3); mkR (Fin 1) (Fin 2); mkR (Fin 2) (Fin 2)];
+                 [mkR (Fin 0) (Fin 3); mkR (Fin 3) (Fin 3)];
+                 [mkR (Fin 1) (Fin 2); mkR (Fin 1) (Fin 1)] ] in
+  forallb wf_sched items = true /\ forallb md_admissible_sched items = true /\
+  forallb (fun s => negb (definitive (cur s))) items = true /\
+  pairwise_separated (map cur items) = false /\
+  match make_distinct (fuel_for items) (mkMs items []) (seq 0 (length items)) [] with
+  | Done m' => map cur (its m') = [point 2; point 3; point 1] /\ length (evs m') = 4%nat /\
+               holds_distinct items (ORanges (map cur (its m'))) = true
+  | _ => False
+  end.
+Proof. vm_compute. repeat split; reflexivity. Qed.
+
+
+(* ------------------------------------------------------------------ hypotheses are satisfiable: examples *)
+
+Definition ex_items : list schedule :=
+  [ [mkR (Fin 0) (Fin 3); mkR (Fin 1) (Fin 3); mkR (Fin 2) (Fin 2)];
+    [mkR (Fin 0) (Fin 3); mkR (Fin 0) (Fin 2); mkR (Fin 1) (Fin 1)];
+    [mkR (Fin 1) (Fin 3); mkR (Fin 3) (Fin 3)];
+    [mkR (Fin 0) (Fin 2); mkR (Fin 1) (Fin 2); mkR (Fin 1) (Fin 1)] ].
+
+Example C17_lt_example :
+  wf_sched (nth 0 ex_items []) = true /\ wf_sched (nth 1 ex_items []) = true /\
+  cmp_lt (fuel_for ex_items) (mkMs ex_items []) 0 1 true = cmp_lt (fuel_for ex_items) (mkMs ex_items []) 0 1 false /\
+  match cmp_lt (fuel_for ex_items) (mkMs ex_items []) 0 1 true with
+  | Done (r, m') => r = false /\ length (evs m') = 4%nat | _ => False end.
+Proof. vm_compute. repeat split; reflexivity. Qed.
+
+Example C17_min_example :
+  Forall (fun s => wf_sched s = true) ex_items /\
+  match min_bounded (fuel_for ex_items) (mkMs ex_items []) (seq 0 4) [true; false; true] with
+  | Done (Some i, m') => (i = 1%nat \/ i = 3%nat) /\ holds_min ex_items (OItem (Some i)) = true /\ evs m' <> []
+  | _ => False end.
+Proof. split; [repeat constructor|]. vm_compute. repeat split; auto; discriminate. Qed.
+
+(* the trace graphtage's FibonacciHeap really performs on these four items (tie between items 1 and 3) is accepted *)
+Example C17_sort_example :
+  match sort_model (fuel_for ex_items) (mkMs ex_items []) (seq 0 4)
+          [HCmp 1 0 false; HCmp 2 1 false; HCmp 3 1 true; HCmp 0 3 false; HCmp 2 0 false; HCmp 3 0 true; HPop 1;
+           HCmp 0 2 true; HCmp 0 0 false; HPop 3; HCmp 2 2 false; HPop 0; HPop 2] with
+  | Done (l, m') => l = [1; 3; 0; 2]%nat /\ holds_sort ex_items (OList l) = true
+  | _ => False end.
+Proof. vm_compute. split; reflexivity. Qed.
+
+Example C17_search_example :
+  Forall (fun s => wf_sched s = true) ex_items /\ ex_items <> [] /\
+  match search (fuel_for ex_items) (mkMs ex_items []) (seq 0 4) [] with
+  | Done (Some b, r, rets, m') => fin_at ex_items b = 1 /\ r = point 1 /\ holds_search ex_items (OSearch (Some b) r rets) = true
+                            /\ (3 <= length (evs m'))%nat
+  | _ => False end.
+Proof. split; [repeat constructor|]. split; [discriminate|]. vm_compute. repeat split; auto; discriminate. Qed.
